@@ -25,6 +25,8 @@ CM = int(os.environ.get('VH_CM', '1'))              # lrt cutoff argument: 0 Non
 PAR = os.environ.get('VH_PAR', 'base')              # lrt parents: base (parent_dict None) | chain | sym | symobj
 OKPIN = os.environ.get('VH_OK', '')                 # e.g. '1x0': strictness flags of the first models pinned (x = free)
 CHUNK = os.environ.get('VH_CHUNK', '')              # strictness expressions: 'i/n' -> every n-th expression from i
+SLEVEL = int(os.environ.get('VH_SLEVEL', '2'))      # strictness expressions with <= SLEVEL connectives (and/or)
+NONAN = os.environ.get('VH_NONAN', '0') == '1'      # rank_lrt: no NaN OFVs (flags ignored)
 
 
 
@@ -331,7 +333,8 @@ def rank_lrt(v0: int, v1: int, v2: int, v3: int, ok0: bool, ok1: bool, ok2: bool
     else:
         par = [0] + [[j for j in range(n) if j == q][0] for q in (q1, q2, q3)[:n - 1]]
     return _rank_body(n, (v0, v1, v2, v3), (ok0, ok1, ok2, ok3), (0, 0, 0, 0), False, 0, False, (0, 0, 0, 0),
-                      par=par, npar=[n0, n1, n2, n3], nan=[nan0, nan1, nan2, nan3])
+                      par=par, npar=[n0, n1, n2, n3],
+                      nan=[False] * 4 if NONAN else [nan0, nan1, nan2, nan3])
 
 
 def rank_lrt__twin(v0: int, v1: int, v2: int, v3: int, ok0: bool, ok1: bool, ok2: bool, ok3: bool,
@@ -455,7 +458,7 @@ def _exprs():
                 out.append((f'not {a} {op} {b}', (op, ('not', a), b)))
                 out.append((f'not ({a} {op} {b})', ('not', (op, a, b))))
     tri = ['minimization_successful', 'rounding_errors', 'sigdigs >= 3', 'rse < 2']
-    for o1 in ('and', 'or'):
+    for o1 in (('and', 'or') if SLEVEL >= 2 else ()):
         for o2 in ('and', 'or'):
             for a in tri:
                 for b in tri:
